@@ -32,6 +32,18 @@ CLAIMED["C06"] = (
     "classification of a Python value into none/bool/int/str/frame/enum/exception.",
     "DESIGN.md §5 C06")
 
+CLAIMED["C04"] = (
+    "model_checking",
+    "TLA+ address/instance byte codec (AddrCodec) with partition/round-trip/locality theorems checked by TLC; "
+    "add_to_frame, from_frame, instance_from_frame, ==/!= and wrong-size refusal tables recorded from the real "
+    "library and judged cell by cell by TLC",
+    "The 16-bit space is enumerated completely (82 address objects x 2^16 frames; 2^16 decodes); 24-bit frames: all "
+    "address bytes x structured (quick) / all (thorough) instance bytes x sampled opcode bytes; all ordered pairs of "
+    "376 objects for equality; frame sizes 1..64 for refusal.",
+    "Trusted: TLC; the harness's description of a real address object as (class, number). Low opcode byte of 24-bit "
+    "frames is sampled.",
+    "DESIGN.md §5 C04")
+
 NOT_YET = {}
 
 
